@@ -17,7 +17,7 @@
 EXTENDS Naturals, Integers, TLC
 
 Opts == {"ReadFromHeader", "ReadHeaderButUseProvided", "UseProvided"}
-SizeClasses == {"none", "zero", "true", "truePlus1", "huge"}      \* "none" in the header field = all-ones
+SizeClasses == {"none", "zero", "true", "truePlus1", "huge", "top", "allButOne"}      \* "none" in the header field = all-ones
 DictClasses == {0, 1, 4095, 4096, 4097, 65536, 2147483647}
 
 \* implementation-shaped: the reads in the order the code performs them; avail = bytes the input holds
